@@ -15,6 +15,8 @@ import (
 	"go/ast"
 	"go/token"
 	"go/types"
+
+	"golang.org/x/tools/go/packages"
 )
 
 func inlineErrorClosures(info *types.Info, body *ast.BlockStmt) *ast.BlockStmt {
@@ -155,6 +157,60 @@ func nestGuardClauses(list []ast.Stmt) []ast.Stmt {
 		default:
 			out = append(out, st)
 		}
+	}
+	return out
+}
+
+// spliceGatedHelpers returns the statement list with, in front of every statement that calls a function of the same
+// package and checks its error (`x, err := h(…)` / `if x, err := h(…); err != nil { … }`), the statements of that
+// function's body (recursively, to the given depth). Rules that look for "a rejecting check before step N" in a list of
+// statements then also see checks that were factored out into a helper. The original statement stays in place after
+// the spliced body, so gates that are recognised by the callee's name are still found.
+func spliceGatedHelpers(p *packages.Package, list []ast.Stmt, depth int) []ast.Stmt {
+	if depth <= 0 {
+		return list
+	}
+	info := p.TypesInfo
+	decls := FuncDecls(p)
+	helperOf := func(st ast.Stmt) *ast.FuncDecl {
+		var call *ast.CallExpr
+		switch t := st.(type) {
+		case *ast.AssignStmt:
+			if len(t.Rhs) == 1 {
+				call, _ = t.Rhs[0].(*ast.CallExpr)
+			}
+		case *ast.IfStmt:
+			if as, ok := t.Init.(*ast.AssignStmt); ok && len(as.Rhs) == 1 {
+				call, _ = as.Rhs[0].(*ast.CallExpr)
+			}
+		}
+		if call == nil {
+			return nil
+		}
+		fn := calleeOf(info, call)
+		if fn == nil || fn.Pkg() != p.Types {
+			return nil
+		}
+		sig := fn.Type().(*types.Signature)
+		if sig.Results().Len() == 0 || !types.Identical(sig.Results().At(sig.Results().Len()-1).Type(), types.Universe.Lookup("error").Type()) {
+			return nil
+		}
+		name := fn.Name()
+		if sig.Recv() != nil {
+			name = namedName(sig.Recv().Type()) + "." + name
+		}
+		fd := decls[name]
+		if fd == nil || fd.Body == nil {
+			return nil
+		}
+		return fd
+	}
+	var out []ast.Stmt
+	for _, st := range list {
+		if fd := helperOf(st); fd != nil {
+			out = append(out, spliceGatedHelpers(p, fd.Body.List, depth-1)...)
+		}
+		out = append(out, st)
 	}
 	return out
 }
